@@ -36,7 +36,8 @@ def write_if_changed(path, text):
     except FileNotFoundError:
         pass
     os.makedirs(os.path.dirname(path), exist_ok=True)
-    tmp = path + '.tmp%d' % os.getpid()
+    import threading
+    tmp = path + '.tmp%d_%d' % (os.getpid(), threading.get_ident())
     with open(tmp, 'w', encoding='utf-8') as f:
         f.write(text)
     os.replace(tmp, path)
@@ -211,6 +212,11 @@ def main():
     if not ok_all:
         errs = [l for l in log_all.split('\n') if l.startswith('File "') or 'Error' in l]
         print('note: files outside the registered checks do not build yet:\n  ' + '\n  '.join(errs[:20]))
+    if not problems and 'PJPLAN_REPO' not in os.environ:
+        # the constants of a tree whose extraction had no problem: used by the checks to go on searching for a
+        # failing input when a later change of the source makes the extraction (or the build with it) fail
+        import shutil
+        shutil.copyfile(os.path.join(GEN, 'Consts.v'), os.path.join(GEN, 'Consts.v.good'))
     print('build ok: %d files in %.1fs' % (len(source_files()), time.time() - t0))
     sys.exit(1 if hits else 0)
 
